@@ -193,23 +193,41 @@ def p7_archetype_tables(prog):
                     if not regs and p.ended == 'return' and 'r' not in rep:
                         rep.add('r')
                         r.viol('P7', key + '/no-lookup-entry', f.loc(e['ln']), 'archetype inserted into the table without registering its identifier bytes in foreign_identifier_lookup: later lookups by bytes miss it and a second table for the same component set is created')
-        # (b) type_id_lookup.insert values
-        for b, t in body.calls(lambda c: 'HashMap' in c['path'] and c['name'] == 'insert'):
-            if not field_of_self(prog, body, t['args'][0], 'type_id_lookup'):
-                continue
+        # (b) every value written into type_id_lookup (insert or extend) is the identifier of the archetype just
+        #     found/inserted, or its image under an identifier map
+        til = adt_field_index(prog, 'archetypes::Archetypes', 'type_id_lookup')
+        mentions_til = any(isinstance(e, dict) and e.get('f') == til for g in [f] + f.closures() for b_, i_, s_ in g.body.stmts() if s_['k'] == 'assign'
+                           for pl in ([s_['rv'].get('place')] if s_['rv'].get('place') else []) for e in pl['p'])
+        if mentions_til and f.name not in ('shrink_to_fit', 'new', 'with_capacity', 'eq', 'fmt', 'drop'):
+            E = pathsem.analyse(prog, f, max_paths=30000)
+            S = pathsem.strip_refs
             key = 'Archetypes::%s/type-id-insert' % f.name
-            r.inst(key)
-            v = op_local(t['args'][2]) if len(t['args']) > 2 else None
-            ok = False
-            if v is not None:
-                for cb, ct in body.calls(lambda c: c['name'] in ('identifier',) or (c['name'] in ('get', 'get_unchecked') and 'HashMap' in c['path'])):
-                    if v in derived(body, {ct['dest']['l']}):
-                        if ct['f']['name'] == 'identifier':
-                            ok = True
-                        elif (receiver_name(prog, body, ct['args'][0]) or '').endswith('identifier_map'):
-                            ok = True
-            if not ok:
-                r.viol('P7', key + '/value-provenance', f.loc(t['ln']), 'type_id_lookup entry does not point at the identifier of the archetype just found/inserted (or its image under identifier_map)')
+            vals = []
+            for p in E.paths:
+                for e in p.calls(lambda e: 'HashMap' in e['path'] and e['name'] in ('insert', 'insert_unique_unchecked') and len(e['args']) >= 3 and pathsem.is_field_of(e['args'][0], 'archetypes::Archetypes', til)):
+                    vals.append((e['args'][2], e['ln']))
+                for e in p.calls(lambda e: e.get('consumer') and pathsem.is_field_of(e['args'][0], 'archetypes::Archetypes', til)):
+                    ends = [c for c in p.events if c['k'] == 'consume_end' and c['i'] > e['i']]
+                    if not ends:
+                        continue      # the path ended inside the adaptor closure (e.g. unwrap_unchecked of None)
+                    x = ends[0]['elem']
+                    if isinstance(x, tuple) and x[0] == 'agg' and x[1] == 'tuple' and len(x[4]) == 2:
+                        vals.append((x[4][1], e['ln']))
+                    else:
+                        vals.append((('unk', 'extend', x), e['ln']))
+            if vals:
+                r.inst(key)
+            for v, ln in vals:
+                def from_map(t):
+                    if not (t[0] == 'call' and 'HashMap' in t[1] and t[1].rsplit('::', 1)[-1] in ('get', 'get_unchecked', 'index') and t[2]):
+                        return False
+                    m = S(t[2][0])
+                    # an identifier *map* (parameter or local), not one of the tables of an Archetypes value
+                    return not (isinstance(m, tuple) and m[0] == 'f' and isinstance(m[3], str) and m[3].endswith('archetypes::Archetypes'))
+                ok = pathsem.mentions(v, lambda t: t[0] == 'call' and t[1].endswith('::identifier')) or pathsem.mentions(v, from_map)
+                if not ok:
+                    r.viol('P7', key + '/value-provenance', f.loc(ln), 'type_id_lookup entry does not point at the identifier of the archetype just found/inserted (or its image under identifier_map)')
+                    break
     # (c) shrink_to_fit
     fs = [f for f in prog.fns.values() if f.path == 'archetypes::Archetypes::<R>::shrink_to_fit']
     if len(fs) != 1:
@@ -282,7 +300,8 @@ def c10a_clone_from_clears(prog):
     if E.truncated or not rets:
         once('not-analysable', None, 'path enumeration cut off')
         return r
-    S = pathsem.strip_refs
+    def S(t):
+        return pathsem.canon(pathsem.strip_refs(t))
     body = f.body
     p_self = ('p', 1, body.local_name(1) or 'self')
     p_src = ('p', 2, body.local_name(2) or 'source')
@@ -290,18 +309,16 @@ def c10a_clone_from_clears(prog):
     def yielded(p, root_name, owner):
         """elements produced on path p by iterating <owner>.<root_name>()"""
         out = []
-        for e in p.calls(lambda e: e['path'] == 'core::iter::Iterator::next'):
-            pass
         for a_, v in p.conds:
-            if isinstance(a_, tuple) and a_[0] == 'next' and v == 1:
+            if isinstance(a_, tuple) and ((a_[0] == 'next' and v == 1) or (a_[0] == 'nonempty' and v is True)):
                 root, kinds = pathsem.iter_chain(a_[1])
                 if S(root) == owner and root_name in kinds:
-                    out.append(('elem', a_[1], a_[2]))
+                    out.append(pathsem.canon(('elem', a_[1]) + tuple(a_[2:3] if a_[0] == 'next' else ())))
         return out
 
     def ident_of(p, t):
         """if t is the result of `<archetype>.identifier()` -> the archetype value it was called on"""
-        for e in p.calls(lambda e: e['name'] == 'identifier' and e.get('ret') == t):
+        for e in p.calls(lambda e: e['name'] == 'identifier' and e.get('ret') is not None and S(e['ret']) == S(t)):
             return S(e['vals'][0])
         return None
     n_src = n_dst = 0
@@ -330,7 +347,7 @@ def c10a_clone_from_clears(prog):
                     once('clone-target', cfs[0]['ln'], 'a source archetype is cloned into a table that was not looked up by the source archetype\'s identifier')
                 at = cfs[0]['i']
             else:
-                dest = cls[0]['ret']
+                dest = S(cls[0]['ret'])
                 ins = p.calls(lambda e: e['name'] == 'insert' and e['path'].startswith('archetypes::Archetypes') and S(e['vals'][1]) == dest)
                 if not ins:
                     if p.ended == 'return':
@@ -350,7 +367,7 @@ def c10a_clone_from_clears(prog):
         if p.ended != 'return':
             continue
         # ---- clear pass
-        nexts = [a_ for a_, v in p.conds if isinstance(a_, tuple) and a_[0] == 'next' and
+        nexts = [a_ for a_, v in p.conds if isinstance(a_, tuple) and a_[0] in ('next', 'nonempty') and
                  (lambda rk: S(rk[0]) == p_self and 'iter_mut' in rk[1])(pathsem.iter_chain(a_[1]))]
         if not nexts:
             once('clear-pass-skippable', None,
